@@ -35,10 +35,17 @@ vars == <<row, phase, sni, clientCert, cqlSent>>
 (*            must never become a trust anchor                                  *)
 (*  san       the name in the leaf: the bundle's host, some other name, or the  *)
 (*            very name the client sends as SNI (node id / contact point)       *)
-(*  validity  of the leaf at the time of the handshake                          *)
+(*  validity  of the leaf at the time of the handshake.  "At the current time"  *)
+(*            is the time of the handshake, not the time the endpoint or its    *)
+(*            TLS configuration was made: a leaf that was valid then and has     *)
+(*            expired since must be rejected (expired_since_config), one that     *)
+(*            was not yet valid then and is now must be accepted                  *)
+(*            (valid_since_config)                                                *)
 Signers == {"int", "intexp", "direct", "other", "self"}
 SANs == {"bundleHost", "otherName", "sniName"}
-Validities == {"current", "expired", "notyet"}
+Validities == {"current", "expired", "notyet", "expired_since_config", "valid_since_config"}
+TimeShifted == {"expired_since_config", "valid_since_config"}
+ValidNow == {"current", "valid_since_config"}
 Chains == [signer : Signers, extra : BOOLEAN, san : SANs, validity : Validities]
 EmptyChain == [signer |-> "none", extra |-> FALSE, san |-> "none", validity |-> "none"]
 
@@ -47,7 +54,7 @@ ChainsToBundleCA(c) == c.signer = "direct" \/ (c.signer = "int" /\ c.extra)
 Accept(c) == /\ c # EmptyChain
              /\ ChainsToBundleCA(c)
              /\ c.san = "bundleHost"
-             /\ c.validity = "current"
+             /\ c.validity \in ValidNow
 
 \* the conjuncts of Accept a chain violates (names the failing shape of a rejected row)
 Why(c) ==
@@ -56,7 +63,7 @@ Why(c) ==
          \cup (IF c.signer \in {"int", "intexp"} /\ ~c.extra THEN {"intermediate-missing"} ELSE {})
          \cup (IF c.signer = "intexp" THEN {"intermediate=expired"} ELSE {})
          \cup (IF c.san # "bundleHost" THEN {"name=" \o c.san} ELSE {})
-         \cup (IF c.validity # "current" THEN {"leaf=" \o c.validity} ELSE {})
+         \cup (IF c.validity \notin ValidNow THEN {"leaf=" \o c.validity} ELSE {})
 
 \* the connection kinds of the statement: the metadata service, a node reached through a contact
 \* point of the metadata (Resolve), a node learnt from system.peers (NewEndpoint)
@@ -70,7 +77,11 @@ ExpectedSNI(t) == CASE t = "metadata" -> "bundleHost"
 \* for the metadata service the SNI *is* the bundle host: the sniName rows coincide with bundleHost
 Rows == {[target |-> t, chain |-> c, host |-> h, tls |-> v, draw |-> d] :
             t \in Targets, c \in Chains \cup {EmptyChain}, h \in HostKinds, v \in TLSVersions, d \in 1..IdDraws}
-RealRows == {r \in Rows : ~(r.target = "metadata" /\ r.chain.san = "sniName")}
+\* the time-shifted validities are only combined with otherwise acceptable chains presented by a node (an endpoint
+\* object with its TLS configuration exists between its creation and the handshake only for nodes)
+RealRows == {r \in Rows : /\ ~(r.target = "metadata" /\ r.chain.san = "sniName")
+                          /\ (r.chain # EmptyChain /\ r.chain.validity \in TimeShifted) =>
+                                (r.target # "metadata" /\ ChainsToBundleCA(r.chain) /\ r.chain.san = "bundleHost")}
 
 -----------------------------------------------------------------------------
 (* Client-side handshake machine                                               *)
@@ -117,15 +128,15 @@ ASSUME ClassesSane ==
     /\ \A c \in Chains : c.signer = "self" => ~Accept(c)                   \* self-signed
     /\ \A c \in Chains : c.signer = "other" => ~Accept(c)                  \* leaf under another CA (root presented or not)
     /\ \A c \in Chains : c.san # "bundleHost" => ~Accept(c)                \* wrong name (even the SNI's name)
-    /\ \A c \in Chains : c.validity # "current" => ~Accept(c)              \* expired / not yet valid
+    /\ \A c \in Chains : c.validity \notin ValidNow => ~Accept(c)         \* expired (also since the endpoint was made) / not yet valid
     /\ \A c \in Chains : (c.signer = "int" /\ ~c.extra) => ~Accept(c)      \* intermediate missing
     /\ \A c \in Chains : c.signer = "intexp" => ~Accept(c)                 \* intermediate expired
     /\ ~Accept(EmptyChain)
     /\ Accept([signer |-> "direct", extra |-> FALSE, san |-> "bundleHost", validity |-> "current"])
     /\ Accept([signer |-> "direct", extra |-> TRUE, san |-> "bundleHost", validity |-> "current"])
     /\ Accept([signer |-> "int", extra |-> TRUE, san |-> "bundleHost", validity |-> "current"])
-    /\ Cardinality({c \in Chains : Accept(c)}) = 3
-    /\ Cardinality(Chains) = 90
+    /\ Cardinality({c \in Chains : Accept(c)}) = 6
+    /\ Cardinality(Chains) = 150
     /\ \A c \in Chains \cup {EmptyChain} : Accept(c) <=> Why(c) = {}
 
 \* export: the observation expected at the end of every row
